@@ -1175,6 +1175,20 @@ func (e *Engine) ptrEq(x, y PtrV) *Term {
 	return And(x.Nil, y.Nil)
 }
 
+// ptrEqRef: a pointer compared with a ref-sorted term (a `ref` ghost variable whose value is
+// not known here, e.g. an auxiliary variable of a callee after the call): equality of the
+// pointer's identity term with that term — never a constant, so that assuming such a clause
+// cannot kill a path.
+func (e *Engine) ptrEqRef(p PtrV, t *Term) *Term {
+	if p.Obj == nil {
+		return And(p.Nil, App("tq_isnil", SBool, t))
+	}
+	if len(p.Path) != 0 {
+		return e.freshVar("ptreq", SBool)
+	}
+	return Eq(e.ptrRef(p), t)
+}
+
 func (e *Engine) ifaceEq(st *State, x, y IfaceV) *Term {
 	nx, ny := e.ifaceNil(x), e.ifaceNil(y)
 	if nx.IsTrue() {
@@ -1268,6 +1282,9 @@ func (e *Engine) valueEq(st *State, a, b Value) *Term {
 	case *Term:
 		y, ok := b.(*Term)
 		if !ok {
+			if p, isPtr := b.(PtrV); isPtr && x.Sort == SRef {
+				return e.ptrEqRef(p, x)
+			}
 			return TFalse
 		}
 		return Eq(x, y)
@@ -1296,6 +1313,9 @@ func (e *Engine) valueEq(st *State, a, b Value) *Term {
 	case PtrV:
 		y, ok := b.(PtrV)
 		if !ok {
+			if t, isTerm := b.(*Term); isTerm && t.Sort == SRef {
+				return e.ptrEqRef(x, t)
+			}
 			return TFalse
 		}
 		return e.ptrEq(x, y)
